@@ -75,11 +75,14 @@ type Inconclusive struct{ Msg string }
 func (e *Inconclusive) Error() string { return "inconclusive: " + e.Msg }
 
 type replayFile struct {
-	Property string          `json:"property"`
-	Check    string          `json:"check"`
-	Error    string          `json:"error,omitempty"`
-	Class    string          `json:"class,omitempty"`
-	Case     json.RawMessage `json:"case"`
+	Property string `json:"property"`
+	Check    string `json:"check"`
+	Error    string `json:"error,omitempty"`
+	Class    string `json:"class,omitempty"`
+	// Platform of the process that found the failure; the driver replays under the same one.
+	GOARCH     string          `json:"goarch,omitempty"`
+	GOMAXPROCS int             `json:"gomaxprocs,omitempty"`
+	Case       json.RawMessage `json:"case"`
 }
 
 type registered struct {
@@ -314,7 +317,7 @@ func writeReplay(property, check string, v any, err error) string {
 	}
 	_ = os.MkdirAll(dir, 0o755)
 	raw, _ := json.Marshal(v)
-	rf := replayFile{Property: property, Check: check, Case: raw}
+	rf := replayFile{Property: property, Check: check, Case: raw, GOARCH: runtime.GOARCH, GOMAXPROCS: runtime.GOMAXPROCS(0)}
 	if err != nil {
 		rf.Error = err.Error()
 		var f *Failure
